@@ -57,7 +57,7 @@ class C05(Prop):
     imports = "From Tola Require Import Py.Base Model.Fragment Model.Fasta Model.AgpTpf Corr.AgpTpf."
     show_fn = "show"
     design_ref = "6/C05"
-    required_theorems = []
+    required_theorems = ['C05_parse_format_agp', 'C05_format_parse_agp', 'C05_parse_format_tpf', 'C05_agp_tpf_agp', 'C05_agp_rows_eq_lines', 'C05_tpf_rows_eq_lines', 'C05_gap_type_tables', 'C05_wf_satisfiable']
 
     def rule(self):
         return (
